@@ -12,6 +12,7 @@ import r_width
 import r_conv
 import r_window
 import r_mirror
+import r_absint
 
 
 def _sets(quick, thorough=None):
@@ -88,7 +89,7 @@ PROPS = {
                     'peek clause is decided by S11 when listed in the evidence.'),
     ),
     'C11': dict(
-        rules=[r_iface.s13_result_arity, r_iface.s14_set_arms, r_iface.s15_naming_forwarding],
+        rules=[r_iface.s13_result_arity, r_iface.s14_set_arms, r_iface.s15_naming_forwarding, r_absint.a03_defaults],
         feature_sets=_sets(['default'], ['default', 'nodefault', 'ci']),
         explanation=('Static rules over the MIR/HIR of every IndicatorConfig / IndicatorInstance impl: (S13) each '
                      'IndicatorResult::new call reachable from next() is fed array-typed slices whose lengths equal the constant '
@@ -96,10 +97,11 @@ PROPS = {
                      'path of set(): exactly one arm per public field, whose only write is that field := Ok payload of parsing the '
                      'value text, no write and Err on parse failure and for unknown names; (S15) NAME is a literal equal to the '
                      'type name or a public alias, pairwise distinct, and each method of the two Dyn blanket impls forwards to '
-                     'the same-named static method with its own parameters and returns that result.'),
+                     'the same-named static method with its own parameters and returns that result. (A03) abstract run of Default::default, '
+                     'validate(&default) == true and init(default, valid candle) returning Ok without any reachable panic, for all 37 configs.'),
         not_decided=['that the parsed value equals the meaning of the text (delegated to str::parse / FromStr of MA and Source, '
                      'see C18/C05 rules)',
-                     'default configuration valid and initialising: decided by the abstract interpreter rule A03 when armed'],
+                     'A03 treats Err(InvalidCandles) as candle-dependent (floats are not bounded): only configuration errors count'],
         assumptions=TRUST + ['IndicatorResult::new stores min(SIZE, len) elements (read, not re-derived)'],
         technique='static analysis: custom MIR/HIR rules (per-path arm analysis of set(), array-length vs size() agreement, forwarding call-graph check)',
         level_text=('Every clause of the interface contract except the numeric meaning of parsed text is decided exactly on the '
@@ -107,7 +109,9 @@ PROPS = {
                     'identity, dyn->static forwarding. Structural and complete over the impl table; no execution.'),
     ),
     'C13': dict(
-        rules=[r_serde.s17_serde_coverage, r_serde.s02_manual_serde_tables, r_serde.s10_state_purity],
+        rules=[r_serde.s17_serde_coverage, r_serde.s02_manual_serde_tables, r_serde.s10_state_purity,
+               lambda ctx: r_absint.a01_constructors(ctx, groups=('deserialize',), rule_id='A01d', min_entries=2,
+                   title='hand-written Deserialize impls (Window, SMM): with the deserialised helper struct unconstrained (any buffer length, any index) no assertion of from_parts and no other panic is reachable: bad data leaves through Err')],
         feature_sets=_sets(['default']),
         explanation=('(S17) every Method / IndicatorInstance / IndicatorConfig / MA type and every crate type in its field closure has '
                      'Serialize and Deserialize impls; derived impls carry no skip/default/with/flatten/from/into attribute (attributes '
@@ -115,7 +119,7 @@ PROPS = {
                      'write exactly the field names their Deserialize helper structs read, each from the same-named field; (S10) state '
                      'is plain data, so behaviour is a function of the restored fields.'),
         not_decided=['that the chosen format round-trips every f64/integer bit-exactly (a property of the format crate)',
-                     'derived (recomputed) state of hand-written Deserialize impls and rejection of malformed window data (rules S03 / A01) when armed',
+                     'that the derived (recomputed) state of hand-written Deserialize impls equals what the constructors compute (rule S03 when armed)',
                      'behavioural equality of restored instances is inferred from field-completeness, not observed'],
         assumptions=TRUST + ['serde derive implements the documented field-wise behaviour'],
         technique='static analysis: impl-table coverage query, AST attribute scan, writer/reader field-table agreement on MIR',
@@ -146,7 +150,9 @@ PROPS = {
         level_text='Decides the clause "equality is an equivalence relation with which the ordering is consistent" structurally.',
     ),
     'C18': dict(
-        rules=[r_tables.s18_source_tables, r_tables.s06_ma_dispatch],
+        rules=[r_tables.s18_source_tables, r_tables.s06_ma_dispatch,
+               lambda ctx: r_absint.a01_constructors(ctx, groups=('parser',), rule_id='A01p', min_entries=4,
+                   title='Source::from_str, MA::from_str and the TryFrom conversions reach no panic for any text')],
         feature_sets=_sets(['default']),
         explanation=('(S18) Source: the literal->variant table of from_str and the variant->literal table of Into<&str> are extracted from '
                      'MIR paths; G(v) parses back to v for every variant, every literal is a fixed point of from_str\'s normalisation, the '
@@ -155,23 +161,33 @@ PROPS = {
                      'period and rejects other names.'),
         not_decided=['numeric identities (tp, hl2, ohlc4, clv, true range), validate\'s exact acceptance set, associativity of +: '
                      'statements about float values for all candles, not decided',
-                     'parsers never panic on any text: rule A01 when armed'],
+                     'str::parse of the numeric period is trusted to be total (std)'],
         assumptions=TRUST,
         technique='static analysis: inverse-table agreement extracted from MIR match paths',
         level_text='Text-form round trip and source(kind) wiring decided exactly for all 8 sources and 15 MA kinds.',
     ),
     'C10': dict(
-        rules=[r_init.s12_validate_dominates_init],
+        rules=[r_init.s12_validate_dominates_init,
+               lambda ctx: r_absint.a01_constructors(ctx, groups=('method-new', 'ma-init', 'config-init', 'config-validate', 'config-set', 'parser'), min_entries=165),
+               r_absint.a01c_too_small, r_absint.a02_next_with_facts],
         feature_sets=_sets(['default']),
         explanation=('(S12) in every IndicatorConfig::init (37), each construction of Ok(instance) is dominated by the true branch of a '
                      'test on self.validate(), the false branch reaches no Ok, and the configuration is not written afterwards: init '
-                     'returns Err whenever validate() is false.'),
-        not_decided=['constructors never panic / overflow for every parameter value, documented too-small lengths give Err, parsers never '
-                     'panic, config-determined panics in next(): rules A01/A02 (interval abstract interpretation) when armed',
-                     'panics in next() that depend on stream values or accumulated state (loop/float invariants): not decided'],
+                     'returns Err whenever validate() is false. (A01) interval x relation abstract interpretation of the monomorphic MIR '
+                     'of every method constructor, MA::init, indicator init/validate/set and text parser, with every integer parameter '
+                     'unconstrained (all 256 values at once, all MA kinds), floats and strings top: every overflow check, bounds check, '
+                     'division check, assert!/debug_assert!/panic!/unwrap reachable from them is refuted, or reported. (A01c) with a length '
+                     'pinned to a value its doc comment calls too small the abstract return is exactly {Err}. (A02) next() is interpreted '
+                     'from the joined Ok-state of init()/new() with all non-invariant fields forgotten: no empty-window push, window index '
+                     'out of range or overflow in pure configuration arithmetic is reachable.'),
+        not_decided=['panics in next() that depend on stream values or accumulated state (listed in the evidence under '
+                     'next_panic_sites_not_decided: ring-buffer bounds checks, age counters, float assertions on inputs): they need loop / '
+                     'float / representation invariants and are not decided',
+                     'allocation failure and stack overflow are outside the property'],
         assumptions=TRUST,
-        technique='static analysis: dominator / reachability rule on the MIR CFG of init()',
-        level_text='Decides the clause "return Err whenever validate() is false" on all paths of all 37 init functions.',
+        technique='static analysis: abstract interpretation (intervals x relations x variant sets over MIR) + dominator rule on init()',
+        level_text=('Constructors, MA construction, init, validate, set and parsers are decided for the whole integer parameter space (sound '
+                    'over-approximation: an unrefuted panic site is reported); next() only for configuration-determined panics.'),
     ),
     'C19': dict(
         rules=[r_unsafe.s20_unsafe_twins],
@@ -209,7 +225,9 @@ PROPS = {
                     'enumerated and each is classified. Numeric equalities for long windows / f32 are not claimed.'),
     ),
     'C01': dict(
-        rules=[r_window.s01_iterator_discipline, lambda ctx: r_serde.s02_manual_serde_tables(ctx, only=('Window',))],
+        rules=[r_window.s01_iterator_discipline, lambda ctx: r_serde.s02_manual_serde_tables(ctx, only=('Window',)),
+               lambda ctx: r_absint.a01_constructors(ctx, groups=('window-ctor', 'deserialize'), labels=('Window',), rule_id='A01w', min_entries=6,
+                   title='Window::{new, from_parts, empty, From<Vec>, From<Box<[T]>>} and Window::deserialize: every reachable panic is one the constructor documents (# Panics); deserialize reaches none')],
         feature_sets=_sets(['default']),
         explanation=('(S01) for WindowIterator and ReversedWindowIterator: size_hint is (r, Some(r)) of one field r; on every path of next() '
                      'a yielded item decrements r exactly once by 1 and is preceded by the test r != 0, None is returned exactly under r == 0 '
@@ -218,7 +236,7 @@ PROPS = {
                      'never yields. (S02) Window\'s hand-written Serialize/Deserialize agree on the field table (buf, index).'),
         not_decided=['that push / slice_index / newest / the iterator cursor arithmetic select the right slot for every rotation phase '
                      '(modular arithmetic on runtime values; needs a solver or model checker): not decided',
-                     'agreement of the three constructors on derived fields and rejection of malformed serialized windows: rules S03 / A01 when armed'],
+                     'agreement of the three constructors on derived fields (rule S03) when armed'],
         assumptions=TRUST,
         technique='static analysis: per-path remaining-count discipline on MIR (typestate-like), writer/reader table agreement',
         level_text='Iterator exhaustion/count clauses and serde table agreement decided exactly; slot arithmetic explicitly not.',
@@ -239,7 +257,10 @@ PROPS = {
         level_text='Mirror and signed-zero clauses only; exactness of the selection algorithms is not claimed.',
     ),
     'C17': dict(
-        rules=[r_conv.s19a_collapse_discipline, r_conv.s19b_same_name_wiring],
+        rules=[r_conv.s19a_collapse_discipline, r_conv.s19b_same_name_wiring, r_window.s01b_pos_len_iterators,
+               lambda ctx: r_absint.a01_constructors(ctx, groups=('method-new',), labels=('Renko::new', 'CollapseTimeframe::new', 'HeikinAshi::new'), rule_id='A01r', min_entries=3,
+                   title='Renko::new, CollapseTimeframe::new, HeikinAshi::new reach no panic for any parameter value'),
+               lambda ctx: r_absint.a02_next_with_facts(ctx, only=('Renko',), strict_module='methods::renko', rule_id='A02r')],
         feature_sets=_sets(['default']),
         explanation=('(S19a) on every path of CollapseTimeframe::next the position is incremented exactly once; Some(..) is returned exactly on '
                      'the path where it equals period, which resets it to 0 and returns the taken accumulator; other paths return None and keep '
@@ -248,7 +269,7 @@ PROPS = {
                      'accessor, Candle::from, HLC::from and the tuple conversions wire each component to the same-named / same-position '
                      'component; the batch collapse folds with the same Add.'),
         not_decided=['Heikin-Ashi recursion and output validity, Renko brick contiguity/sizing/volume conservation: numeric, not decided',
-                     'Renko never panics (brick-boundary case): rule A01 when armed'],
+                     'A02r decides "Renko::next never panics" for integer arithmetic, casts and indexing with every float unconstrained; float results themselves are not bounded'],
         assumptions=TRUST,
         technique='static analysis: per-path emission discipline on MIR, same-name wiring of struct literals',
         level_text='Emission discipline and aggregation wiring decided exactly; numeric converter behaviour not claimed.',
